@@ -919,3 +919,47 @@ pub fn big_frame_family(rng: &mut Rng) -> Shape {
     p.push(Ins::ret());
     Shape { name: "frame-of-4-KiB-or-more", prog: p }
 }
+
+/// A maze of environment calls (C12, C03): top-level code without functions, three to six `ecall`s
+/// whose number comes straight from `li a7`, from a register that holds different constants on different
+/// paths, or from whatever the previous block left; forward branches around the blocks. Which ecalls
+/// are exits depends on which edges have been cut already - the result must be a fixed point all the same.
+pub fn ecall_maze_family(rng: &mut Rng) -> Shape {
+    let mut p = Program::default();
+    let n = 3 + rng.below(4);
+    let nums = [10, 93, 10, 93, 1, 5, 34];
+    p.label("main");
+    p.push(Ins::li(9, rng.range(1, 9) as i32));
+    p.push(Ins::li(A7, *rng.pick(&nums)));
+    p.push(Ins::li(5, *rng.pick(&nums)));
+    // forward branches into the maze
+    let mut targets: Vec<usize> = (1..n).collect();
+    rng.shuffle(&mut targets);
+    for (k, t) in targets.iter().take(1 + rng.below(3)).enumerate() {
+        p.push(Ins::Branch { c: Cond::Eq, rs1: 10 + k as u8, rs2: ZERO, label: format!("blk_{t}") });
+    }
+    for b in 0..n {
+        if b > 0 {
+            p.label(&format!("blk_{b}"));
+        }
+        for _ in 0..rng.below(3) {
+            match rng.below(6) {
+                0 => p.push(Ins::li(5, *rng.pick(&nums))),
+                1 => p.push(Ins::li(A7, *rng.pick(&nums))),
+                2 => p.push(Ins::mv(A7, 5)),
+                3 => p.push(Ins::mv(A0, 9)),
+                4 => p.push(Ins::addi(0, 0, 0)),
+                _ => {
+                    if b + 1 < n {
+                        let t = b + 1 + rng.below(n - b - 1);
+                        p.push(Ins::Branch { c: Cond::Eq, rs1: 11, rs2: ZERO, label: format!("blk_{t}") });
+                    }
+                }
+            }
+        }
+        p.push(Ins::Ecall);
+    }
+    p.push(Ins::li(A7, 10));
+    p.push(Ins::Ecall);
+    Shape { name: "maze-of-ecalls", prog: p }
+}
